@@ -1134,8 +1134,8 @@ impl PartialOrd for d128 {
     }
 
     fn le(&self, other: &Self) -> bool {
-        let mut status: _IDEC_flags = StatusFlags::BID_EXACT_STATUS;
-        bid128_quiet_less_equal(self, other, &mut status)
+        // consistent with eq and partial_cmp, where all NaNs form one equivalence class
+        matches!(self.partial_cmp(other), Some(Ordering::Less | Ordering::Equal))
     }
 
     fn gt(&self, other: &Self) -> bool {
@@ -1144,8 +1144,8 @@ impl PartialOrd for d128 {
     }
 
     fn ge(&self, other: &Self) -> bool {
-        let mut status: _IDEC_flags = StatusFlags::BID_EXACT_STATUS;
-        bid128_quiet_greater_equal(self, other, &mut status)
+        // consistent with eq and partial_cmp, where all NaNs form one equivalence class
+        matches!(self.partial_cmp(other), Some(Ordering::Greater | Ordering::Equal))
     }
 }
 
@@ -1543,12 +1543,32 @@ impl std::hash::Hash for d128 {
     ///
     /// let mut hasher = DefaultHasher::new();
     /// decmathlib_rs::dec128!(7920).hash(&mut hasher);
-    /// assert_eq!(6912922690305470905, hasher.finish());
+    /// assert_eq!(723825601886988756, hasher.finish());
     /// ```
     #[inline]
     fn hash<H: std::hash::Hasher>(&self, state: &mut H) {
-        state.write_u64(self.w[0]);
-        state.write_u64(self.w[1]);
+        // Hash a representative of the equality class, so that values that compare equal hash equally:
+        // all NaNs together, all zeros together, and a finite number by its sign, its coefficient without
+        // trailing zeros and the correspondingly raised exponent (1, 1.0 and 1.00 are equal).
+        if self.is_nan() {
+            state.write_u8(3);
+        } else if self.is_infinite() {
+            state.write_u8(2);
+            state.write_u8(self.is_sign_minus() as u8);
+        } else if self.is_zero() {
+            state.write_u8(0);
+        } else {
+            let mut coefficient: u128 = (((self.w[1] & MASK_COEFF) as u128) << 64) | (self.w[0] as u128);
+            let mut exponent: i32     = ((self.w[1] & MASK_EXP) >> 49) as i32 - 6176;
+            while coefficient % 10 == 0 {
+                coefficient /= 10;
+                exponent    += 1;
+            }
+            state.write_u8(1);
+            state.write_u8(self.is_sign_minus() as u8);
+            state.write_i32(exponent);
+            state.write_u128(coefficient);
+        }
     }
 
     /// Computes the hash of a sequence of decimal floating point numbers.
@@ -1558,12 +1578,12 @@ impl std::hash::Hash for d128 {
     /// let mut hasher = DefaultHasher::new();
     /// let numbers = [decmathlib_rs::dec128!(6), decmathlib_rs::dec128!(28), decmathlib_rs::dec128!(496), decmathlib_rs::dec128!(8128)];
     /// Hash::hash_slice(&numbers, &mut hasher);
-    /// assert_eq!(16555189424726162492, hasher.finish());
+    /// assert_eq!(15629897524491137619, hasher.finish());
     /// ```
     #[inline]
     fn hash_slice<H: std::hash::Hasher>(data: &[d128], state: &mut H) {
-        let newlen: usize  = std::mem::size_of_val(data);
-        let ptr: *const u8 = data.as_ptr() as *const u8;
-        state.write(unsafe { std::slice::from_raw_parts(ptr, newlen) })
+        for value in data {
+            value.hash(state);
+        }
     }
 }
